@@ -241,6 +241,13 @@ pub fn run(report: &Report, thorough: bool) -> Evidence {
         faults.push(Fault::Files { sel: None, ac: Some(valid_ac.as_bytes()[..n].to_vec()), label: format!("user auto-correct {:?} cut at byte {}/{}", valid_ac, n, valid_ac.len()) });
     }
     faults.push(Fault::Files { sel: Some(br#"{"as":""}"#.to_vec()), ac: Some(br#"{"as":""}"#.to_vec()), label: "both files with empty string entries".into() });
+    // an empty auto-correct value (an empty candidate) together with a learned choice for the same word, for
+    // every candidate the word has on the tiny database
+    for (w, cands) in [("as", ["\u{0986}\u{09B8}", "\u{0986}\u{09B6}", "\u{098F}\u{09B8}", "\u{0986}\u{0981}\u{09B6}"])] {
+        for c in cands {
+            faults.push(Fault::Files { sel: Some(format!("{{\"{}\":\"{}\"}}", w, c).into_bytes()), ac: Some(format!("{{\"{}\":\"\"}}", w).into_bytes()), label: format!("auto-correct {{\"{}\":\"\"}} and store {{\"{}\":\"{}\"}}", w, w, c) });
+        }
+    }
     faults.extend([Fault::DirMissing, Fault::DirIsFile, Fault::SelPathIsDir, Fault::AcPathIsDir]);
 
     // ---- sessions ----
@@ -352,6 +359,15 @@ pub fn run(report: &Report, thorough: bool) -> Evidence {
                         report.add(v);
                     }
                     Ok(run) => {
+                        // whatever is in the files, every returned list stays self-consistent
+                        for r in &run.rends {
+                            if let Rend::Full { items, sel, .. } = r {
+                                if items.is_empty() || *sel >= items.len() {
+                                    mk("inconsistent-suggestion", "inconsistent-suggestion".into(), &[], format!("session {:?}: a list of {} candidates with previously selected index {}: {:?}", sess, items.len(), sel, items));
+                                    break;
+                                }
+                            }
+                        }
                         if treat_absent && !dir_fault {
                             compared.fetch_add(1, Ordering::Relaxed);
                             if let Some(r) = reference.get(&(ci, si)) {
@@ -445,7 +461,9 @@ pub fn run(report: &Report, thorough: bool) -> Evidence {
                     Fault::Files { sel: None, ac: None, label: String::new() }.install(&o);
                     set(init, 0);
                     let mut evs: Vec<Ev> = vec![];
-                    let mut live = match Ctx::new(&o) {
+                    let mut o_create = o.clone();
+                    o_create.psugg = init % 2 == 0;
+                    let mut live = match Ctx::new(&o_create) {
                         Ok(c) => c,
                         Err(p) => {
                             report.add(Violation::new("C10", "panic-at-creation", "panic-at-creation:live").opts(&o).detail(p.short()));
@@ -456,6 +474,8 @@ pub fn run(report: &Report, thorough: bool) -> Evidence {
                     let mut failed = false;
                     for (t, &k) in seqs[si].iter().enumerate() {
                         set(k, t as u64 + 1);
+                        // (the context of this run was created with suggestions off when `init` is odd: the first
+                        // update-engine call switches them on)
                         let up = Ev::Update(Box::new(o.clone()));
                         evs.push(up.clone());
                         if let Err(f) = live.apply(&up) {
